@@ -100,7 +100,7 @@ func cmdMapRun(args []string) {
 			from = len(ops) - 1
 		}
 		for _, op := range ops[:from] {
-			w.Exec(op)
+			w.ExecSilent(op)
 		}
 		lr := w.rec(t, "Load", Op{}, Res{Class: "ok"})
 		lr.I = cfg.Limit
